@@ -19,6 +19,7 @@ use orca_whirlpools_core as sdk;
 pub fn register(v: &mut Vec<Box<dyn Family>>) {
     v.push(Box::new(SdkMath));
     v.push(Box::new(SdkTicks));
+    v.push(Box::new(SdkAf));
 }
 
 fn guard<T, F: FnOnce() -> Result<T, String> + std::panic::UnwindSafe>(f: F) -> Result<T, String> {
@@ -255,5 +256,141 @@ impl Family for SdkTicks {
             ctx.viol(format!("C20 sqrt_price_to_tick_index around tick {}: at the tick price {}, one below {}", tick, back, below));
         }
         format!("ok {}", s)
+    }
+}
+
+
+// ------------------------------------------------------------------------------------------------
+// C20 / C14: the adaptive-fee variable rules of the SDK (AdaptiveFeeVariablesFacade) against the program's
+// (state::AdaptiveFeeVariables), function by function, over all elapsed-time classes:
+//   sdkaf cur now fp dp rf cf mx gs mj lr lm vr gr va g2 pre post
+// update_reference(group(cur), now) ; update_volatility_accumulator(g2) ; update_major_swap_timestamp(pre, post, now)
+// The output line is the PROGRAM's result (compared with the Lean model); SDK != program is the oracle.
+// ------------------------------------------------------------------------------------------------
+struct SdkAf;
+impl Family for SdkAf {
+    fn name(&self) -> &'static str {
+        "sdkaf"
+    }
+    fn gen(&self, r: &mut Rng, _idx: u64) -> String {
+        let ts = r.pick(&[1u64, 2, 8, 64, 128, 256, 32896]);
+        let divisors: Vec<u64> = (1..=ts).filter(|d| ts % d == 0).collect();
+        let gs = r.pick(&divisors);
+        let fp = r.pick(&[1u64, 10, 30, 60, 300, 65534]);
+        let dp = (fp + r.pick(&[1u64, 30, 600, 3000, 7200])).min(65535);
+        let rf = r.pick(&[0u64, 1, 500, 5000, 9000, 9999]);
+        let cf = r.pick(&[0u64, 1, 1000, 4000, 40000, 99999]);
+        let mx = match r.below(4) {
+            0 => (u32::MAX as u64) / gs,
+            1 => r.pick(&[0u64, 1, 9999, 10000, 10001]),
+            _ => r.pick(&[50_000u64, 350_000, 1_000_000]).min((u32::MAX as u64) / gs),
+        };
+        let mj = 1 + r.below((ts * 88).min(65535));
+        let cur = r.tick() as i64;
+        let now = 10_000 + r.below(1 << 32);
+        let g0 = cur.div_euclid(gs as i64);
+        let va = if mx == 0 { 0 } else { r.below(mx + 1) };
+        let vr = if va == 0 { 0 } else { r.below(va + 1) };
+        let ages = [0u64, 1, 9, 10, 29, 30, 59, 60, 299, 300, 301, 3599, 3600, 3601, 7000, 100000];
+        let lr = now.saturating_sub(r.pick(&ages));
+        let lm = if r.chance(1, 30) { now + r.below(100) } else { now.saturating_sub(r.pick(&ages)) };
+        let glo = (MIN_TICK as i64).div_euclid(gs as i64);
+        let ghi = (MAX_TICK as i64).div_euclid(gs as i64);
+        let gr = (g0 + r.pick(&[0i64, 0, 1, -1, 2, -2, 5, -5, 40, -40, 1000, -1000])).clamp(glo, ghi);
+        let g2 = (g0 + r.pick(&[0i64, 1, -1, 3, -3, 50, -50, 5000, -5000])).clamp(glo, ghi);
+        let pre = sqrt_price_from_tick_index(cur as i32);
+        let post = if r.chance(1, 3) { r.sqrt_price() } else { sqrt_price_from_tick_index((cur + r.range_i(-(mj as i64) - 2, mj as i64 + 2)).clamp(MIN_TICK as i64, MAX_TICK as i64) as i32) };
+        format!("sdkaf {} {} {} {} {} {} {} {} {} {} {} {} {} {} {} {} {}", cur, now, fp, dp, rf, cf, mx, gs, mj, lr, lm, vr, gr, va, g2, pre, post)
+    }
+    fn run(&self, line: &str, ctx: &mut Ctx) -> String {
+        use ::whirlpool::state::{AdaptiveFeeConstants, AdaptiveFeeVariables};
+        let t = toks(line);
+        let cur: i64 = t[1].parse().unwrap();
+        let now = p64(t[2]);
+        let c = AdaptiveFeeConstants {
+            filter_period: t[3].parse().unwrap(),
+            decay_period: t[4].parse().unwrap(),
+            reduction_factor: t[5].parse().unwrap(),
+            adaptive_fee_control_factor: t[6].parse().unwrap(),
+            max_volatility_accumulator: t[7].parse().unwrap(),
+            tick_group_size: t[8].parse().unwrap(),
+            major_swap_threshold_ticks: t[9].parse().unwrap(),
+            ..Default::default()
+        };
+        let mut v = AdaptiveFeeVariables {
+            last_reference_update_timestamp: p64(t[10]),
+            last_major_swap_timestamp: p64(t[11]),
+            volatility_reference: t[12].parse().unwrap(),
+            tick_group_index_reference: t[13].parse().unwrap(),
+            volatility_accumulator: t[14].parse().unwrap(),
+            ..Default::default()
+        };
+        let sc = sdk::AdaptiveFeeConstantsFacade {
+            filter_period: c.filter_period,
+            decay_period: c.decay_period,
+            reduction_factor: c.reduction_factor,
+            adaptive_fee_control_factor: c.adaptive_fee_control_factor,
+            max_volatility_accumulator: c.max_volatility_accumulator,
+            tick_group_size: c.tick_group_size,
+            major_swap_threshold_ticks: c.major_swap_threshold_ticks,
+        };
+        let mut sv = sdk::AdaptiveFeeVariablesFacade {
+            last_reference_update_timestamp: v.last_reference_update_timestamp,
+            last_major_swap_timestamp: v.last_major_swap_timestamp,
+            volatility_reference: v.volatility_reference,
+            tick_group_index_reference: v.tick_group_index_reference,
+            volatility_accumulator: v.volatility_accumulator,
+        };
+        let g1 = cur.div_euclid(c.tick_group_size as i64) as i32;
+        let g2: i32 = t[15].parse().unwrap();
+        let (pre, post) = (p128(t[16]), p128(t[17]));
+        let name = |e: anchor_lang::error::Error| match e {
+            anchor_lang::error::Error::AnchorError(a) => a.error_name.clone(),
+            anchor_lang::error::Error::ProgramError(p) => format!("ProgramError({:?})", p.program_error),
+        };
+        // program
+        let prog: Result<(), String> = (|| {
+            v.update_reference(g1, now, &c).map_err(name)?;
+            v.update_volatility_accumulator(g2, &c).map_err(name)?;
+            v.update_major_swap_timestamp(pre, post, now, &c).map_err(name)?;
+            Ok(())
+        })();
+        // SDK
+        let sdk_res: Result<(), String> = guard(std::panic::AssertUnwindSafe(|| {
+            sv.update_reference(g1, now, &sc).map_err(|e| e.to_string())?;
+            sv.update_volatility_accumulator(g2, &sc);
+            sv.update_major_swap_timestamp(pre, post, now, &sc);
+            Ok(())
+        }));
+        match (&prog, &sdk_res) {
+            (Ok(()), Ok(())) => {
+                let same = { v.last_reference_update_timestamp } == sv.last_reference_update_timestamp
+                    && { v.last_major_swap_timestamp } == sv.last_major_swap_timestamp
+                    && { v.volatility_reference } == sv.volatility_reference
+                    && { v.tick_group_index_reference } == sv.tick_group_index_reference
+                    && { v.volatility_accumulator } == sv.volatility_accumulator;
+                if !same {
+                    ctx.viol(format!(
+                        "C20 adaptive-fee variables after update_reference / accumulator / major-swap: program ({}, {}, {}, {}, {}) but SDK ({}, {}, {}, {}, {})",
+                        { v.last_reference_update_timestamp }, { v.last_major_swap_timestamp }, { v.volatility_reference }, { v.tick_group_index_reference }, { v.volatility_accumulator },
+                        sv.last_reference_update_timestamp, sv.last_major_swap_timestamp, sv.volatility_reference, sv.tick_group_index_reference, sv.volatility_accumulator
+                    ));
+                }
+                ctx.tag("both_ok");
+                let age = now.saturating_sub(p64(t[10]));
+                ctx.tag(if age > 3600 { "age_reset" } else { "age_young" });
+                if p64(t[11]) > p64(t[10]) {
+                    ctx.tag("major_newer_than_reference");
+                }
+                ctx.nontrivial(line);
+            }
+            (Ok(()), Err(e)) => ctx.viol(format!("C20 the program updates the adaptive-fee variables but the SDK fails with {}", e)),
+            (Err(e), Ok(())) if e == "InvalidTimestamp" => ctx.viol("C20 the program rejects the timestamp but the SDK accepts it".to_string()),
+            (Err(_), _) => ctx.tag("program_err"),
+        }
+        match prog {
+            Ok(()) => format!("ok {} {} {} {} {}", { v.last_reference_update_timestamp }, { v.last_major_swap_timestamp }, { v.volatility_reference }, { v.tick_group_index_reference }, { v.volatility_accumulator }),
+            Err(e) => format!("err {}", e),
+        }
     }
 }
